@@ -220,9 +220,9 @@ type RunResult struct {
 	SimSeconds float64     `json:"sim_seconds"`
 	WallMs     float64     `json:"wall_ms"`
 	Stats      Stats       `json:"stats"`
-	Reach      []string    `json:"reach,omitempty"`    // distinct reach tuples visited
-	Nontrivial bool        `json:"nontrivial"`         // property oracle exercised on a non-empty case
-	Sample     []string    `json:"sample,omitempty"`   // compact trace
+	Reach      []string    `json:"reach,omitempty"`  // distinct reach tuples visited
+	Nontrivial bool        `json:"nontrivial"`       // property oracle exercised on a non-empty case
+	Sample     []string    `json:"sample,omitempty"` // compact trace
 	Violations []Violation `json:"violations,omitempty"`
 	Tape       []uint32    `json:"tape,omitempty"` // only when a violation was found or asked for
 	HarnessErr string      `json:"harness_err,omitempty"`
